@@ -79,6 +79,12 @@ Theorem huffman_canonical_code_prefix_free : forall kind bad lens t, build kind 
 Proof. exact canonical_prefix_free. Qed.
 Print Assumptions huffman_canonical_code_prefix_free.
 
+(* the LEN/NLEN test of [stored] (sum = 65535) is the one's complement test of RFC 1951 3.2.4 on 16-bit values *)
+Theorem stored_len_check_is_complement : forall len nlen, len < 65536 -> nlen < 65536 ->
+  (len + nlen =? 65535) = (nlen =? N.lnot len 16).
+Proof. exact stored_check_complement. Qed.
+Print Assumptions stored_len_check_is_complement.
+
 (* ---------- the stored-block encoder round-trips, for EVERY byte list ---------- *)
 (* header 0x78 0x01; blocks of at most 65535 bytes, the last one final; Adler-32.  No hypothesis on the
    length, nor on the elements being < 256 (stored bytes are copied verbatim) *)
